@@ -72,7 +72,13 @@ def gen(rng, index, tier):
             r[i:i + 2] = [r[i] + r[i + 1]]
     elif var == "independent":
         b = [lib.gen_ranking(rng, els, 0.4, "complete") for _ in range(m)]
-    return {"a": a, "b": b, "var": var, "kind": kind, "name_b": rng.choice(["", "other"])}
+    case = {"a": a, "b": b, "var": var, "kind": kind, "name_b": rng.choice(["", "other"])}
+    if rng.random() < 0.15:
+        import common
+        case["past_a"] = common.gen_past(rng, a)
+        if rng.random() < 0.5:
+            case["past_b"] = common.gen_past(rng, b)
+    return case
 
 
 def fixed_cases(tier):
@@ -86,6 +92,15 @@ def impl(case):
     try:
         da = Dataset([Ranking([lib.ordered_set(b) for b in r]) for r in case["a"]])
         db = Dataset([Ranking([lib.ordered_set(b) for b in r]) for r in case["b"]], name=case["name_b"])
+        if case.get("past_a") or case.get("past_b"):
+            # the two objects are compared, then modified in place, then compared again
+            import common
+            from corankco.scoringscheme import ScoringScheme
+            uni = ScoringScheme.get_unifying_scoring_scheme()
+            bool(da == db)
+            bool(db == da)
+            common.apply_past(da, uni, case.get("past_a") or [], extra_query=lambda: bool(da == db))
+            common.apply_past(db, uni, case.get("past_b") or [], extra_query=lambda: bool(db == da))
         obs_a = [[[dscommon.enc_elem(e) for e in b] for b in r.buckets] for r in da.rankings]
         obs_b = [[[dscommon.enc_elem(e) for e in b] for b in r.buckets] for r in db.rankings]
         # agreement with ranking equality: multiset comparison done with Ranking.__eq__
@@ -122,6 +137,8 @@ def judge(case, out, answers):
     holds = (out["eq"] == m and out["eq_sym"] == out["eq"] and out["refl"] and out["ne"] == (not out["eq"])
              and out["by_ranking_eq"] == out["eq"])
     tags.append("equal" if out["eq"] else "different")
+    if case.get("past_a") or case.get("past_b"):
+        tags.append("datasets-with-a-past")
     nontrivial = case["var"] in ("perm_rankings", "perm_members", "multiplicity", "move", "swap_buckets", "merge")
     return {"agree": not diff, "holds": holds, "diff": "; ".join(diff) + ("" if holds else " impl: %s" % {k: out[k] for k in ("eq", "eq_sym", "refl", "ne", "by_ranking_eq")}),
             "nontrivial": nontrivial, "tags": tags}
